@@ -168,6 +168,9 @@ def gen_scenarios(plan_items, seed, out, scale=1.0):
             if fam == "tlcws":       # behaviours enumerated by TLC from the code-shaped model
                 k = dict(kv.split("=") for kv in params.split(",") if kv).get("k", "3")
                 args = [sys.executable, os.path.join(HERE, "gen", "tlcgen.py"), "--steps", k, "--sample", str(n), "--seed", str(seed * 131 + idx)]
+            if fam == "tlcevlag":    # ... the event-path model with a lagging reader
+                k = dict(kv.split("=") for kv in params.split(",") if kv).get("k", "3")
+                args = [sys.executable, os.path.join(HERE, "gen", "tlcgen.py"), "--model", "evlag", "--steps", k, "--sample", str(n), "--seed", str(seed * 131 + idx)]
             if fam == "tlcev":       # ... from the event-path model
                 k = dict(kv.split("=") for kv in params.split(",") if kv).get("k", "3")
                 args = [sys.executable, os.path.join(HERE, "gen", "tlcgen.py"), "--model", "ev", "--steps", k, "--sample", str(n), "--seed", str(seed * 131 + idx)]
